@@ -6,6 +6,6 @@ git -C /repo apply "$PATCH" || { echo "patch does not apply"; exit 2; }
 cd /verif
 for id in "$@"; do
   out=$(./check $id quick 2>&1); rc=$?
-  echo "== $id rc=$rc"; echo "$out" | grep -E "FAIL|VIOLATION|INCONCLUSIVE|HARNESS" | cut -c1-300 | head -4
+  echo "== $id rc=$rc"; echo "$out" | grep -a -E "FAIL|VIOLATION|INCONCLUSIVE|HARNESS" | cut -c1-300 | head -4
 done
 git -C /repo checkout -- . ; git -C /repo status --short | grep -v '^??' | head -2
